@@ -263,15 +263,35 @@ EmitMove:
               OperandSignature signature = RegUtils::signature_of(highest_type);
               ASMJIT_PROPAGATE(emit_reg_swap(Reg(signature, out_id), Reg(signature, cur_id)));
 
+              // A swapped variable is only done if it doesn't need sign or zero extension - otherwise it's extended
+              // in place (cur_id == out_id) by the next iteration.
+              auto needs_extension = [](const Var& v) noexcept {
+                TypeId dt = v.out.type_id();
+                TypeId st = v.cur.type_id();
+                return dt != TypeId::kVoid && st != TypeId::kVoid &&
+                       TypeUtils::is_int(dt) && TypeUtils::is_int(st) && TypeUtils::size_of(dt) > TypeUtils::size_of(st);
+              };
+
               wd.swap(var_id, cur_id, alt_id, out_id);
               cur.set_reg_id(out_id);
-              var.mark_done();
               alt_var.cur.set_reg_id(cur_id);
+              work_flags |= kWorkDidSome;
+
+              if (!needs_extension(var)) {
+                var.mark_done();
+              }
+              else {
+                work_flags |= kWorkPending;
+              }
 
               if (alt_var.out.is_initialized()) {
-                alt_var.mark_done();
+                if (!needs_extension(alt_var)) {
+                  alt_var.mark_done();
+                }
+                else {
+                  work_flags |= kWorkPending;
+                }
               }
-              work_flags |= kWorkDidSome;
             }
             else {
               // If there is a scratch register it can be used to perform the swap.
